@@ -97,6 +97,12 @@ def finite_mode_job(job):
     coup = 0.5 * sz + 0.2 * sx
     ws = 0.8 + 1.5 * r.random(nmodes)
     gs = 0.08 + 0.1 * r.random(nmodes)
+    if temp > 0:
+        # the reference truncates every mode's Fock space: the thermal tail beyond the truncation must be negligible,
+        # otherwise the *reference* is wrong (seen in the thorough tier: 3 modes at T = 1.2 with 7 levels, 8e-6)
+        nmax = int(min((60, 22, 8)[nmodes - 1], max(nmax, np.ceil(23.0 * temp / ws.min()) + 3)))
+        if np.exp(-ws.min() * nmax / temp) > 1e-7:
+            return [{"what": "harness", "detail": "Fock truncation too coarse for T=%s with %d modes" % (temp, nmodes)}]
     coth = (lambda w: 1 / np.tanh(w / (2 * temp))) if temp > 0 else (lambda w: 1.0)
     corr = oqupy.CustomCorrelations(lambda tau: sum(g * g * (coth(w) * np.cos(w * tau) - 1j * np.sin(w * tau))
                                                     for w, g in zip(ws, gs)))
@@ -154,11 +160,13 @@ def run(ctx):
     quick = ctx.tier == "quick"
     fjobs = [(ctx.seed + i, nm, t, lind, meth) for i, (nm, t, lind) in enumerate(
         [(1, 0.0, False), (2, 0.7, False), (1, 0.5, True), (3, 0.0, True)] if quick else
-        [(1, 0.0, False), (2, 0.7, False), (1, 0.5, True), (3, 0.0, True), (2, 0.0, True), (3, 1.2, False), (1, 2.0, True)])
+        [(1, 0.0, False), (2, 0.7, False), (1, 0.5, True), (3, 0.0, True), (2, 0.0, True), (3, 0.3, False), (1, 2.0, True)])
         for meth in ("tempo", "pt")]
     for j, mm in zip(fjobs, core.pmap(finite_mode_job, fjobs)):
         ctx.case({"finite_mode_bath": {"modes": j[1], "T": j[2], "lindblad": j[3], "method": j[4]}}, nontrivial=True)
         for x in mm:
+            if x["what"] == "harness":
+                raise core.MachineryError("finite-mode reference: %s" % x["detail"])
             ctx.violation("C01:finite-modes:%s:%s" % (j[4], x["what"]), "%s: %s" % (j, x), {"finite": list(j)})
     njobs = [(ct, t, z, meth) for ct in ("hard", "exponential", "gaussian") for t in (0.0, 0.6)
              for z, meth in ((1.0, "tempo"), (3.0, "pt"))]
